@@ -3,6 +3,7 @@ package symgo
 import (
 	"fmt"
 	"go/types"
+	"regexp"
 	"strings"
 
 	"golang.org/x/tools/go/ssa"
@@ -862,6 +863,26 @@ func (in *Interp) installReflectStubs() {
 			return Bool(false)
 		}
 		return in.valEq(StrV{s.b[:len(p.b)]}, p)
+	}
+	// regexp: a constant pattern compiled by the real package and evaluated on concrete subjects
+	// only (a symbolic subject is outside the encodable domain)
+	S["regexp.MustCompile"] = func(in *Interp, fn *ssa.Function, a []Value) Value {
+		pat, ok := a[0].(StrV).concrete()
+		if !ok {
+			in.abort("unsupported", "regexp.MustCompile of a symbolic pattern")
+		}
+		if _, err := regexp.Compile(pat); err != nil {
+			in.abort("unsupported", "regexp.MustCompile panics: "+err.Error())
+		}
+		return PtrV{loc: newLoc(OpaqueV{tag: "regexp:" + pat})}
+	}
+	S["(*regexp.Regexp).MatchString"] = func(in *Interp, fn *ssa.Function, a []Value) Value {
+		o, ok := a[0].(PtrV).loc.get().(OpaqueV)
+		subj, ok2 := a[1].(StrV).concrete()
+		if !ok || !ok2 || !strings.HasPrefix(o.tag, "regexp:") {
+			in.abort("unsupported", "regexp match on a symbolic subject or unknown pattern")
+		}
+		return Bool(regexp.MustCompile(strings.TrimPrefix(o.tag, "regexp:")).MatchString(subj))
 	}
 	S["bytes.HasPrefix"] = func(in *Interp, fn *ssa.Function, a []Value) Value {
 		s, p := sliceBytes(a[0].(SliceV)), sliceBytes(a[1].(SliceV))
